@@ -190,8 +190,9 @@ with cv_property (ev : env) (path : list str) (inoneof : bool) (num : N) (p : pr
       match f with
       | FArray it =>
           obind (cv_item ev path (camel n) it) (fun c =>
+            (* the array arm calls setJ5Ext (ext import) and wraps the item constraints *)
             finish c LRepeated (fc_type c) (fc_tname c) (fc_msgs c)
-                   (fc_imports c ++ if fc_validate c then [imp_validate] else []))
+                   (imp_ext :: fc_imports c ++ if fc_validate c then [imp_validate] else []))
       | FMap it =>
           obind (cv_item ev path (camel n) it) (fun c =>
             let en := map_name sn in
